@@ -1,163 +1,297 @@
----- MODULE WireConn ----
-EXTENDS Naturals, Sequences, FiniteSets, TLC
-CONSTANTS MaxCalls, MaxTicks, NBatches,
-          FixInitErrDrain   \* intended design: after a header-less init error the server consumes the client's input stream
-\* methods: kind, header?, init raises?
-Methods == { [n |-> "u",   k |-> "unary",  h |-> FALSE, bad |-> FALSE],
-             [n |-> "ue",  k |-> "unary",  h |-> FALSE, bad |-> TRUE ],
-             [n |-> "p",   k |-> "stream", h |-> FALSE, bad |-> FALSE],
-             [n |-> "ph",  k |-> "stream", h |-> TRUE,  bad |-> FALSE],
-             [n |-> "pi",  k |-> "stream", h |-> FALSE, bad |-> TRUE ],
-             [n |-> "pih", k |-> "stream", h |-> TRUE,  bad |-> TRUE ],
-             [n |-> "zz",  k |-> "unknown", h |-> FALSE, bad |-> FALSE] }
-VARIABLES c2s, s2c, srv, cli, calls, badResp, broken
-vars == <<c2s, s2c, srv, cli, calls, badResp, broken>>
+------------------------------------- MODULE WireConn -------------------------------------
+(* The lock-step socket protocol of vgi-rpc (pipe / subprocess / unix / tcp): one client and one server
+   process connected by two FIFO byte channels, modelled at the granularity of Arrow-IPC framing items.
+   Follows vgi_rpc/rpc/_server.py (serve / serve_one / _serve_unary / _serve_stream) and
+   vgi_rpc/rpc/_client.py (_RpcProxy callers, StreamSession.tick/exchange/close/cancel/__iter__).
 
-Push(q, x) == Append(q, x)
-\* complete IPC stream items carry the id of the call they answer (ghost)
-Resp(kind, cid) == [t |-> "stream", kind |-> kind, cid |-> cid]
+   c2s items:  [t:"req", m, cid]        a complete request stream (schema + 1 row + EOS)
+               [t:"is"]                 input-stream schema      [t:"in"]  tick / exchange input batch
+               [t:"cx"]                 cancel batch             [t:"ie"]  input-stream EOS
+   s2c items:  [t:"S", k, cid, logs]    a complete stream: k = "result" | "err" | "hdr"; logs = #log batches in it
+               [t:"os", cid]            output-stream schema     [t:"d", cid, i]  data batch number i
+               [t:"l", cid]             log batch                [t:"oe", cid]    error batch
+               [t:"oz", cid]            output-stream EOS
+   cid is a ghost: the call an item was produced for (0 = produced for no call).
+
+   The client runs a fixed *script* (chosen in Init): a sequence of calls, each [m, ops] with ops the client
+   operations on the stream session:  "t" tick/exchange, "c" close, "x" cancel, "i" iterate to the end,
+   for unary calls ops = <<>> or <<"L">> (the client's log callback raises).  After the script a probe
+   unary call is made.  obs is the client-observable history; it is a function of the script (lock-step).
+
+   World flag VerMismatch: the server declares a protocol version the client does not match, so every call
+   is refused before dispatch.
+   Design switches (TRUE = intended = the code after the fix commits; FALSE reproduces the code as found):
+     FixStray   the serve loop swallows the input stream of a stream call it rejected before the stream opened
+     FixInitChk non-Stream / missing declared header are reported as init errors instead of killing the loop
+     FixDrain   close()/cancel() drain through an error batch; a raising log callback still drains            *)
+EXTENDS Naturals, Sequences, FiniteSets, TLC
+
+CONSTANTS MaxCalls, MaxTicks, VerMismatch, FixStray, FixInitChk, FixDrain,
+          LogsBeforeRaise    \* are logs emitted by a process() step that then raises delivered before the error? (C08)
+
+\* ------------------------------------------------------------------------------------------ service
+\* k: "unary" | "prod" | "exch";  known: does the server have it;  init: "ok"|"raise"|"nonstream"|"hdrnone"
+\* steps: behaviour of successive process() calls ("emit","emitfin","fin","raise","lograise","logemit");
+\*        past the end: producers "fin", exchanges "emit".   u: unary behaviour "ok"|"raise"|"logok"|"lograise"
+\* badp: the client sends parameters the server's schema rejects
+M(n, k, hdr, init, steps, u) == [n |-> n, k |-> k, hdr |-> hdr, init |-> init, steps |-> steps, u |-> u,
+                                 known |-> TRUE, badp |-> FALSE]
+Methods == {
+  M("u_ok", "unary", FALSE, "ok", <<>>, "ok"),      M("u_err", "unary", FALSE, "ok", <<>>, "raise"),
+  M("u_log", "unary", FALSE, "ok", <<>>, "logok"),  M("u_logerr", "unary", FALSE, "ok", <<>>, "lograise"),
+  [M("u_badp", "unary", FALSE, "ok", <<>>, "ok") EXCEPT !.badp = TRUE],
+  [M("zz_u", "unary", FALSE, "ok", <<>>, "ok") EXCEPT !.known = FALSE],
+  M("p2", "prod", FALSE, "ok", <<"emit", "emit", "fin">>, "ok"),
+  M("p_ef", "prod", FALSE, "ok", <<"emit", "emitfin">>, "ok"),
+  M("p_0", "prod", FALSE, "ok", <<"fin">>, "ok"),
+  M("p_err", "prod", FALSE, "ok", <<"emit", "raise">>, "ok"),
+  M("p_err0", "prod", FALSE, "ok", <<"raise">>, "ok"),
+  M("p_lograise", "prod", FALSE, "ok", <<"logemit", "lograise">>, "ok"),
+  M("p_initerr", "prod", FALSE, "raise", <<>>, "ok"),
+  M("p_nonstream", "prod", FALSE, "nonstream", <<>>, "ok"),
+  [M("p_badp", "prod", FALSE, "ok", <<"emit", "fin">>, "ok") EXCEPT !.badp = TRUE],
+  [M("zz_p", "prod", FALSE, "ok", <<>>, "ok") EXCEPT !.known = FALSE],
+  M("ph2", "prod", TRUE, "ok", <<"emit", "fin">>, "ok"),
+  M("ph_initerr", "prod", TRUE, "raise", <<>>, "ok"),
+  M("ph_none", "prod", TRUE, "hdrnone", <<>>, "ok"),
+  [M("ph_badp", "prod", TRUE, "ok", <<"emit", "fin">>, "ok") EXCEPT !.badp = TRUE],
+  [M("zz_ph", "prod", TRUE, "ok", <<>>, "ok") EXCEPT !.known = FALSE],
+  M("x_ok", "exch", FALSE, "ok", <<>>, "ok"),
+  M("x_err", "exch", FALSE, "ok", <<"emit", "raise">>, "ok"),
+  M("xh", "exch", TRUE, "ok", <<>>, "ok"),
+  M("x_initerr", "exch", FALSE, "raise", <<>>, "ok") }
+Meth(n) == CHOOSE m \in Methods : m.n = n
+Probe == "u_ok"
+
+\* client operation sequences worth distinguishing per method kind
+RECURSIVE Ticks(_)
+Ticks(k) == IF k = 0 THEN <<>> ELSE <<"t">> \o Ticks(k - 1)
+OpsFor(m) == IF m.k = "unary" THEN (IF m.u \in {"logok", "lograise"} THEN {<<>>, <<"L">>} ELSE {<<>>})
+             ELSE {Ticks(k) \o <<e>> : k \in 0..MaxTicks, e \in {"c", "x"}}
+                  \cup (IF m.k = "prod" THEN {<<"i">>, <<"t", "i">>} ELSE {})
+CallDescs == UNION {{[m |-> mm.n, ops |-> o] : o \in OpsFor(mm)} : mm \in Methods}
+RECURSIVE SeqsUpTo(_, _)
+SeqsUpTo(S, n) == IF n = 0 THEN {<<>>} ELSE LET p == SeqsUpTo(S, n - 1) IN p \cup {Append(s, x) : s \in p, x \in S}
+Scripts == SeqsUpTo(CallDescs, MaxCalls) \ {<<>>}
+
+VARIABLES c2s, s2c, srv, cli, script, obs, badResp, broken
+vars == <<c2s, s2c, srv, cli, script, obs, badResp, broken>>
 
 Init == /\ c2s = <<>> /\ s2c = <<>>
-        /\ srv = [pc |-> "idle", m |-> "u", cid |-> 0, emitted |-> 0]
-        /\ cli = [pc |-> "idle", m |-> "u", cid |-> 0, inOpen |-> FALSE, outOpen |-> FALSE, closed |-> FALSE, ticks |-> 0, sess |-> FALSE]
-        /\ calls = 0 /\ badResp = FALSE /\ broken = FALSE
+        /\ srv = [pc |-> "idle", m |-> Probe, cid |-> 0, k |-> 0, stray |-> FALSE, ndata |-> 0]
+        /\ cli = [pc |-> "idle", ip |-> 0, op |-> 0, cid |-> 0, inOpen |-> FALSE, outOpen |-> FALSE, closed |-> FALSE,
+                  how |-> "none", logx |-> FALSE]
+        /\ script \in Scripts
+        /\ obs = <<>> /\ badResp = FALSE /\ broken = FALSE
 
-M(name) == CHOOSE m \in Methods : m.n = name
+NCalls == Len(script) + 1                       \* + the probe
+Call(i) == IF i <= Len(script) THEN script[i] ELSE [m |-> Probe, ops |-> <<>>]
+CurM == Meth(Call(cli.ip).m)
+Ops == Call(cli.ip).ops
+Obs(x) == obs' = Append(obs, x)
+Own(item) == badResp' = (badResp \/ item.cid # cli.cid)
 
-\* ------------------------------------------------------------ client
-CStart(m) == /\ cli.pc = "idle" /\ calls < MaxCalls /\ ~broken
-             /\ calls' = calls + 1
-             /\ c2s' = Push(c2s, [t |-> "req", m |-> m.n, cid |-> calls + 1])
-             /\ cli' = [cli EXCEPT !.pc = IF m.k = "stream" THEN (IF m.h THEN "rd_hdr" ELSE "sess") ELSE "rd_unary",
-                                   !.m = m.n, !.cid = calls + 1, !.inOpen = FALSE, !.outOpen = FALSE,
-                                   !.closed = FALSE, !.ticks = 0, !.sess = (m.k = "stream" /\ ~m.h)]
-             /\ UNCHANGED <<s2c, srv, badResp, broken>>
+\* ========================================================================================== client
+\* ---- start the next call: write the request stream
+CStart ==
+  /\ cli.pc = "idle" /\ cli.ip < NCalls
+  /\ LET i == cli.ip + 1  m == Meth(Call(i).m) IN
+     /\ c2s' = Append(c2s, [t |-> "req", m |-> m.n, cid |-> i])
+     /\ cli' = [cli EXCEPT !.ip = i, !.cid = i, !.op = 0, !.inOpen = FALSE, !.outOpen = FALSE, !.closed = FALSE,
+                           !.how = "none", !.logx = (Call(i).ops = <<"L">>),
+                           !.pc = IF m.k = "unary" THEN "rd_unary" ELSE IF m.hdr THEN "rd_hdr" ELSE "sess"]
+  /\ UNCHANGED <<s2c, srv, script, obs, badResp, broken>>
 
-\* reading where a fresh IPC stream must begin: anything but a stream start is garbage
-CReadUnary == /\ cli.pc = "rd_unary" /\ Len(s2c) > 0
-              /\ LET x == Head(s2c) IN
-                 IF x.t = "stream"
-                 THEN /\ badResp' = (badResp \/ x.cid # cli.cid)
-                      /\ cli' = [cli EXCEPT !.pc = "idle"] /\ UNCHANGED broken
-                 ELSE /\ broken' = TRUE /\ cli' = [cli EXCEPT !.pc = "idle"] /\ UNCHANGED badResp
-              /\ s2c' = Tail(s2c) /\ UNCHANGED <<c2s, srv, calls>>
+\* ---- unary response: exactly one complete stream; anything else is garbage on the wire
+CReadUnary ==
+  /\ cli.pc = "rd_unary" /\ s2c # <<>>
+  /\ LET x == Head(s2c) IN
+     /\ s2c' = Tail(s2c)
+     /\ IF x.t = "S"
+        THEN /\ Own(x) /\ UNCHANGED broken
+             /\ IF cli.logx /\ x.logs > 0
+                THEN \* the log callback raises at the first log batch; the rest of the stream must still be consumed
+                     /\ Obs(<<"callback_raised">>)
+                     /\ cli' = [cli EXCEPT !.pc = IF FixDrain THEN "idle" ELSE "leak"]
+                ELSE /\ Obs(<<x.k, x.logs>>) /\ cli' = [cli EXCEPT !.pc = "idle"]
+        ELSE /\ broken' = TRUE /\ Obs(<<"transport_error">>) /\ cli' = [cli EXCEPT !.pc = "idle"] /\ UNCHANGED badResp
+  /\ UNCHANGED <<c2s, srv, script>>
+\* (code as found) the unread rest of the response stays on the wire: model it as a stale item pushed back
+CLeak == /\ cli.pc = "leak"
+         /\ s2c' = <<[t |-> "oz", cid |-> cli.cid]>> \o s2c
+         /\ cli' = [cli EXCEPT !.pc = "idle"]
+         /\ UNCHANGED <<c2s, srv, script, obs, badResp, broken>>
 
-CReadHeader == /\ cli.pc = "rd_hdr" /\ Len(s2c) > 0
-               /\ LET x == Head(s2c) IN
-                  IF x.t = "stream"
-                  THEN /\ badResp' = (badResp \/ x.cid # cli.cid)
-                       /\ cli' = IF x.kind = "header" THEN [cli EXCEPT !.pc = "sess", !.sess = TRUE]
-                                                       ELSE [cli EXCEPT !.pc = "idle"]   \* error instead of header
-                       /\ UNCHANGED broken
-                  ELSE /\ broken' = TRUE /\ cli' = [cli EXCEPT !.pc = "idle"] /\ UNCHANGED badResp
-               /\ s2c' = Tail(s2c) /\ UNCHANGED <<c2s, srv, calls>>
+\* ---- header stream (or an error stream in its place)
+CReadHeader ==
+  /\ cli.pc = "rd_hdr" /\ s2c # <<>>
+  /\ LET x == Head(s2c) IN
+     /\ s2c' = Tail(s2c)
+     /\ IF x.t = "S"
+        THEN /\ Own(x) /\ UNCHANGED broken
+             /\ Obs(<<x.k, x.logs>>)
+             /\ cli' = [cli EXCEPT !.pc = IF x.k = "hdr" THEN "sess" ELSE "idle"]
+        ELSE /\ broken' = TRUE /\ Obs(<<"transport_error">>) /\ cli' = [cli EXCEPT !.pc = "idle"] /\ UNCHANGED badResp
+  /\ UNCHANGED <<c2s, srv, script>>
 
-\* tick: write (open input stream on first use), then wait for the answer
-CTick == /\ cli.pc = "sess" /\ ~cli.closed /\ cli.ticks < MaxTicks
-         /\ c2s' = (IF cli.inOpen THEN c2s ELSE Push(c2s, [t |-> "ischema"])) \o <<[t |-> "tick"]>>
-         /\ cli' = [cli EXCEPT !.inOpen = TRUE, !.pc = "rd_out", !.ticks = @ + 1]
-         /\ UNCHANGED <<s2c, srv, calls, badResp, broken>>
+\* ---- session operations, taken from the script
+NextOp == IF cli.op < Len(Ops) THEN Ops[cli.op + 1] ELSE "c"        \* scripts always end by leaving through close()
+OpenIn == IF cli.inOpen THEN <<>> ELSE <<[t |-> "is"]>>
+CTick ==
+  /\ cli.pc = "sess" /\ ~cli.closed /\ NextOp \in {"t", "i"}
+  /\ c2s' = c2s \o OpenIn \o <<[t |-> "in"]>>
+  /\ cli' = [cli EXCEPT !.inOpen = TRUE, !.pc = "rd_out", !.how = NextOp, !.op = IF NextOp = "t" THEN @ + 1 ELSE @]
+  /\ UNCHANGED <<s2c, srv, script, obs, badResp, broken>>
+\* close(): EOS on the input stream (an empty stream if it was never opened), then drain the output
+CClose ==
+  /\ cli.pc = "sess" /\ ~cli.closed /\ NextOp = "c"
+  /\ c2s' = c2s \o OpenIn \o <<[t |-> "ie"]>>
+  /\ cli' = [cli EXCEPT !.inOpen = TRUE, !.closed = TRUE, !.pc = "drain", !.how = "close", !.op = @ + 1]
+  /\ UNCHANGED <<s2c, srv, script, obs, badResp, broken>>
+CCancel ==
+  /\ cli.pc = "sess" /\ ~cli.closed /\ NextOp = "x"
+  /\ c2s' = c2s \o OpenIn \o <<[t |-> "cx"], [t |-> "ie"]>>
+  /\ cli' = [cli EXCEPT !.inOpen = TRUE, !.closed = TRUE, !.pc = "drain", !.how = "cancel", !.op = @ + 1]
+  /\ UNCHANGED <<s2c, srv, script, obs, badResp, broken>>
 
-\* close(): EOS on input (or an empty input stream), then drain output
-CCloseWrite == /\ cli.pc \in {"sess", "closing", "closing_eos"} /\ ~cli.closed
-               /\ c2s' = (IF cli.inOpen THEN c2s ELSE Push(c2s, [t |-> "ischema"])) \o <<[t |-> "ieos"]>>
-               /\ cli' = [cli EXCEPT !.closed = TRUE, !.inOpen = TRUE, !.pc = IF cli.pc = "closing_eos" THEN "idle" ELSE "drain", !.sess = (cli.pc # "closing_eos")]
-               /\ UNCHANGED <<s2c, srv, calls, badResp, broken>>
+\* the session ended on the client side by itself (stop / error): close() = EOS + drain
+EndSession(c) == [c EXCEPT !.closed = TRUE, !.pc = "drain"]
+CloseWrite == c2s' = c2s \o <<[t |-> "ie"]>>
 
-CAbandon == /\ cli.pc = "sess" /\ ~cli.closed
-            /\ cli' = [cli EXCEPT !.pc = "idle", !.sess = FALSE]
-            /\ UNCHANGED <<c2s, s2c, srv, calls, badResp, broken>>
-
-\* reading the output stream (tick answer or drain)
+\* ---- reading the output stream after a tick / exchange
 CReadOut ==
-  /\ cli.pc \in {"rd_out", "drain"} /\ Len(s2c) > 0
+  /\ cli.pc = "rd_out" /\ s2c # <<>>
   /\ LET x == Head(s2c) IN
      /\ s2c' = Tail(s2c)
      /\ IF ~cli.outOpen
-        THEN \* must be the start of an IPC stream
-             IF x.t = "oschema" THEN cli' = [cli EXCEPT !.outOpen = TRUE] /\ UNCHANGED <<badResp, broken>>
-             ELSE IF x.t = "stream"
-             THEN \* a complete (error) stream where the output stream was expected: error batch then its EOS
-                  /\ badResp' = (badResp \/ x.cid # cli.cid)
-                  /\ cli' = IF cli.pc = "drain" THEN [cli EXCEPT !.pc = "idle", !.sess = FALSE]
-                            ELSE [cli EXCEPT !.pc = "closing_eos", !.outOpen = TRUE, !.sess = TRUE]
+        THEN IF x.t = "os"
+             THEN /\ Own(x) /\ cli' = [cli EXCEPT !.outOpen = TRUE] /\ UNCHANGED <<c2s, obs, broken>>
+             ELSE IF x.t = "S"     \* a complete error stream where the output stream was expected (call rejected)
+             THEN /\ Own(x) /\ Obs(<<x.k, x.logs>>) /\ CloseWrite
+                  /\ cli' = [cli EXCEPT !.closed = TRUE, !.outOpen = TRUE, !.pc = "idle"]   \* reader already at its EOS
                   /\ UNCHANGED broken
-             ELSE broken' = TRUE /\ cli' = [cli EXCEPT !.pc = "idle", !.sess = FALSE] /\ UNCHANGED badResp
-        ELSE CASE x.t = "data"  -> cli' = [cli EXCEPT !.pc = IF cli.pc = "drain" THEN "drain" ELSE "sess"] /\ UNCHANGED <<badResp, broken>>
-               [] x.t = "oerr"  -> cli' = [cli EXCEPT !.pc = IF cli.pc = "drain" THEN "drain" ELSE "closing"] /\ UNCHANGED <<badResp, broken>>
-               [] x.t = "oeos"  -> cli' = (IF cli.pc = "drain" THEN [cli EXCEPT !.pc = "idle", !.sess = FALSE]
-                                                                ELSE [cli EXCEPT !.pc = "closing_eos"]) /\ UNCHANGED <<badResp, broken>>
-               [] OTHER -> broken' = TRUE /\ cli' = [cli EXCEPT !.pc = "idle", !.sess = FALSE] /\ UNCHANGED badResp
-  /\ UNCHANGED <<c2s, srv, calls>>
+             ELSE /\ broken' = TRUE /\ Obs(<<"transport_error">>) /\ cli' = [cli EXCEPT !.closed = TRUE, !.pc = "idle"]
+                  /\ UNCHANGED <<c2s, badResp>>
+        ELSE CASE x.t = "l"  -> Own(x) /\ Obs(<<"log">>) /\ UNCHANGED <<cli, c2s, broken>>
+               [] x.t = "d"  -> /\ Own(x) /\ Obs(<<"data", x.i>>) /\ UNCHANGED <<c2s, broken>>
+                                /\ cli' = [cli EXCEPT !.pc = "sess"]
+               [] x.t = "oe" -> Own(x) /\ Obs(<<"err", 0>>) /\ CloseWrite /\ cli' = EndSession(cli) /\ UNCHANGED broken
+               [] x.t = "oz" -> /\ Own(x) /\ Obs(<<"stop">>) /\ CloseWrite /\ UNCHANGED broken
+                                /\ cli' = [cli EXCEPT !.closed = TRUE, !.pc = "idle"]
+               [] OTHER      -> /\ broken' = TRUE /\ Obs(<<"transport_error">>) /\ UNCHANGED <<c2s, badResp>>
+                                /\ cli' = [cli EXCEPT !.closed = TRUE, !.pc = "idle"]
+  /\ UNCHANGED <<srv, script>>
 
-\* after an error stream consumed in place of the output stream, close() drains a reader already at EOS
-CClosingDone == /\ cli.pc = "closing" /\ cli.closed
-                /\ cli' = [cli EXCEPT !.pc = "idle", !.sess = FALSE]
-                /\ UNCHANGED <<c2s, s2c, srv, calls, badResp, broken>>
+\* ---- draining the output stream (close / cancel / after an error): nothing is reported to the caller
+CDrain ==
+  /\ cli.pc = "drain" /\ s2c # <<>>
+  /\ LET x == Head(s2c) IN
+     /\ s2c' = Tail(s2c)
+     /\ IF ~cli.outOpen
+        THEN IF x.t = "os" THEN Own(x) /\ cli' = [cli EXCEPT !.outOpen = TRUE] /\ UNCHANGED broken
+             ELSE IF x.t = "S"
+                  THEN /\ Own(x) /\ UNCHANGED broken
+                       /\ cli' = [cli EXCEPT !.pc = IF FixDrain \/ x.k # "err" THEN "idle" ELSE "leak"]
+                  ELSE broken' = TRUE /\ cli' = [cli EXCEPT !.pc = "idle"] /\ UNCHANGED badResp
+        ELSE CASE x.t \in {"l", "d"} -> Own(x) /\ UNCHANGED <<cli, broken>>
+               [] x.t = "oe" -> Own(x) /\ UNCHANGED broken /\ cli' = [cli EXCEPT !.pc = IF FixDrain THEN "drain" ELSE "idle"]
+               [] x.t = "oz" -> Own(x) /\ UNCHANGED broken /\ cli' = [cli EXCEPT !.pc = "idle"]
+               [] OTHER      -> broken' = TRUE /\ cli' = [cli EXCEPT !.pc = "idle"] /\ UNCHANGED badResp
+  /\ UNCHANGED <<c2s, srv, script, obs>>
 
-\* ------------------------------------------------------------ server
+Client == CStart \/ CReadUnary \/ CLeak \/ CReadHeader \/ CTick \/ CClose \/ CCancel \/ CReadOut \/ CDrain
+
+\* ========================================================================================== server
+Push(x) == s2c' = Append(s2c, x)
+Rejected(m) == (~m.known) \/ VerMismatch \/ m.badp
+\* may the client still send an input stream for a call that was rejected before its stream opened?
+StrayAfter(m) == IF ~m.known THEN TRUE ELSE (m.k # "unary" /\ ~m.hdr)
+StepOf(m, k) == IF k <= Len(m.steps) THEN m.steps[k] ELSE IF m.k = "prod" THEN "fin" ELSE "emit"
+
 SReadRequest ==
-  /\ srv.pc = "idle" /\ Len(c2s) > 0
-  /\ LET x == Head(c2s) IN
-     IF x.t = "req" THEN
-        LET m == M(x.m) IN
-        /\ c2s' = Tail(c2s)
-        /\ IF m.k = "unknown" THEN s2c' = Push(s2c, Resp("error", x.cid)) /\ UNCHANGED srv
-           ELSE IF m.k = "unary" THEN s2c' = Push(s2c, Resp(IF m.bad THEN "error" ELSE "result", x.cid)) /\ UNCHANGED srv
-           ELSE IF m.bad THEN /\ s2c' = Push(s2c, Resp("error", x.cid))
-                              /\ srv' = IF FixInitErrDrain /\ ~m.h THEN [srv EXCEPT !.pc = "skip_in", !.cid = x.cid] ELSE srv
-           ELSE /\ s2c' = IF m.h THEN Push(s2c, Resp("header", x.cid)) ELSE s2c
-                /\ srv' = [srv EXCEPT !.pc = "open_in", !.m = m.n, !.cid = x.cid, !.emitted = 0]
-     ELSE IF x.t = "ischema" THEN
-        \* _read_request opened a stray input stream as if it were a request
-        /\ c2s' = Tail(c2s) /\ srv' = [srv EXCEPT !.pc = "stray", !.cid = 0] /\ UNCHANGED s2c
-     ELSE /\ c2s' = Tail(c2s) /\ srv' = [srv EXCEPT !.pc = "dead"] /\ UNCHANGED s2c   \* not an IPC stream start: ArrowInvalid ends the loop
-  /\ UNCHANGED <<cli, calls, badResp, broken>>
+  /\ srv.pc = "idle" /\ c2s # <<>> /\ Head(c2s).t = "req"
+  /\ LET x == Head(c2s)  m == Meth(x.m) IN
+     /\ c2s' = Tail(c2s)
+     /\ IF Rejected(m)
+        THEN /\ Push([t |-> "S", k |-> "err", cid |-> x.cid, logs |-> 0])
+             /\ srv' = [srv EXCEPT !.stray = (FixStray /\ StrayAfter(m))]
+        ELSE IF m.k = "unary"
+        THEN /\ Push([t |-> "S", k |-> IF m.u \in {"raise", "lograise"} THEN "err" ELSE "result", cid |-> x.cid,
+                      logs |-> IF m.u \in {"logok", "lograise"} THEN 2 ELSE 0])
+             /\ srv' = [srv EXCEPT !.stray = FALSE]
+        ELSE IF m.init = "raise" \/ (FixInitChk /\ m.init \in {"nonstream", "hdrnone"})
+        THEN /\ Push([t |-> "S", k |-> "err", cid |-> x.cid, logs |-> 0])
+             /\ srv' = [srv EXCEPT !.stray = (FixStray /\ ~m.hdr)]
+        ELSE IF m.init \in {"nonstream", "hdrnone"}
+        THEN /\ UNCHANGED s2c /\ srv' = [srv EXCEPT !.pc = "dead"]       \* exception escapes the serve loop
+        ELSE /\ IF m.hdr THEN Push([t |-> "S", k |-> "hdr", cid |-> x.cid, logs |-> 0]) ELSE UNCHANGED s2c
+             /\ srv' = [srv EXCEPT !.pc = "open_in", !.m = m.n, !.cid = x.cid, !.k = 0, !.stray = FALSE, !.ndata = 0]
+  /\ UNCHANGED <<cli, script, obs, badResp, broken>>
 
-\* stray stream: read first batch + drain to EOS, then answer "missing vgi_rpc.method" (answers no call: cid 0)
-SStray == /\ srv.pc = "stray" /\ Len(c2s) > 0
+\* a stream that is not a request arrives where a request is expected
+SReadStray ==
+  /\ srv.pc = "idle" /\ c2s # <<>> /\ Head(c2s).t = "is"
+  /\ c2s' = Tail(c2s)
+  /\ srv' = [srv EXCEPT !.pc = IF srv.stray THEN "swallow" ELSE "stray", !.stray = FALSE, !.k = 0]
+  /\ UNCHANGED <<s2c, cli, script, obs, badResp, broken>>
+SSwallow == /\ srv.pc = "swallow" /\ c2s # <<>>
+            /\ c2s' = Tail(c2s)
+            /\ srv' = [srv EXCEPT !.pc = IF Head(c2s).t = "ie" THEN "idle" ELSE "swallow"]
+            /\ UNCHANGED <<s2c, cli, script, obs, badResp, broken>>
+\* code as found: first batch read as a request, rest drained, answered with "missing vgi_rpc.method" (answers no call);
+\* an empty stream (no batch) ends the serve loop
+SStray == /\ srv.pc = "stray" /\ c2s # <<>>
           /\ c2s' = Tail(c2s)
-          /\ IF Head(c2s).t = "ieos" THEN s2c' = Push(s2c, Resp("error", 0)) /\ srv' = [srv EXCEPT !.pc = "idle"]
-                                     ELSE UNCHANGED <<s2c, srv>>
-          /\ UNCHANGED <<cli, calls, badResp, broken>>
+          /\ IF Head(c2s).t = "ie"
+             THEN IF srv.k = 0 THEN srv' = [srv EXCEPT !.pc = "dead"] /\ UNCHANGED s2c
+                  ELSE srv' = [srv EXCEPT !.pc = "idle"] /\ Push([t |-> "S", k |-> "err", cid |-> 0, logs |-> 0])
+             ELSE srv' = [srv EXCEPT !.k = 1] /\ UNCHANGED s2c
+          /\ UNCHANGED <<cli, script, obs, badResp, broken>>
 
-\* intended design only: swallow the input stream the client will still send
-SSkipIn == /\ srv.pc = "skip_in" /\ Len(c2s) > 0
-           /\ c2s' = Tail(c2s)
-           /\ srv' = IF Head(c2s).t = "ieos" THEN [srv EXCEPT !.pc = "idle"] ELSE srv
-           /\ UNCHANGED <<s2c, cli, calls, badResp, broken>>
-
-SOpenIn == /\ srv.pc = "open_in" /\ Len(c2s) > 0 /\ Head(c2s).t = "ischema"
-           /\ c2s' = Tail(c2s) /\ s2c' = Push(s2c, [t |-> "oschema"])
+SOpenIn == /\ srv.pc = "open_in" /\ c2s # <<>> /\ Head(c2s).t = "is"
+           /\ c2s' = Tail(c2s) /\ Push([t |-> "os", cid |-> srv.cid])
            /\ srv' = [srv EXCEPT !.pc = "loop"]
-           /\ UNCHANGED <<cli, calls, badResp, broken>>
-
-SLoop == /\ srv.pc = "loop" /\ Len(c2s) > 0
-         /\ LET x == Head(c2s) IN
+           /\ UNCHANGED <<cli, script, obs, badResp, broken>>
+\* anything but an input stream here (e.g. the next request after an abandoned session) is outside the lock-step contract
+SLoop ==
+  /\ srv.pc = "loop" /\ c2s # <<>>
+  /\ LET x == Head(c2s)  m == Meth(srv.m)  c == srv.cid IN
+     /\ c2s' = Tail(c2s)
+     /\ CASE x.t = "in" ->
+               LET st == StepOf(m, srv.k + 1)
+                   D == [t |-> "d", cid |-> c, i |-> srv.ndata + 1]
+                   L == [t |-> "l", cid |-> c]  E == [t |-> "oe", cid |-> c]  Z == [t |-> "oz", cid |-> c] IN
+              (CASE st = "emit"     -> s2c' = s2c \o <<D>> /\ srv' = [srv EXCEPT !.k = @ + 1, !.ndata = @ + 1]
+                 [] st = "logemit"  -> s2c' = s2c \o <<L, D>> /\ srv' = [srv EXCEPT !.k = @ + 1, !.ndata = @ + 1]
+                 [] st = "emitfin"  -> s2c' = s2c \o <<D, Z>> /\ srv' = [srv EXCEPT !.pc = "drain_in", !.ndata = @ + 1]
+                 [] st = "fin"      -> s2c' = s2c \o <<Z>> /\ srv' = [srv EXCEPT !.pc = "drain_in"]
+                 [] st = "raise"    -> s2c' = s2c \o <<E, Z>> /\ srv' = [srv EXCEPT !.pc = "drain_in"]
+                 [] st = "lograise" -> /\ s2c' = s2c \o (IF LogsBeforeRaise THEN <<L>> ELSE <<>>) \o <<E, Z>>
+                                       /\ srv' = [srv EXCEPT !.pc = "drain_in"])
+          [] x.t = "cx" -> s2c' = s2c \o <<[t |-> "oz", cid |-> c]>> /\ srv' = [srv EXCEPT !.pc = "drain_in"]
+          [] x.t = "ie" -> s2c' = s2c \o <<[t |-> "oz", cid |-> c]>> /\ srv' = [srv EXCEPT !.pc = "idle"]
+          [] OTHER -> UNCHANGED s2c /\ srv' = [srv EXCEPT !.pc = "dead"]
+  /\ UNCHANGED <<cli, script, obs, badResp, broken>>
+SDrainIn == /\ srv.pc = "drain_in" /\ c2s # <<>>
             /\ c2s' = Tail(c2s)
-            /\ IF x.t = "tick"
-               THEN IF srv.emitted < NBatches
-                    THEN s2c' = Push(s2c, [t |-> "data"]) /\ srv' = [srv EXCEPT !.emitted = @ + 1]
-                    ELSE s2c' = Push(s2c, [t |-> "oeos"]) /\ srv' = [srv EXCEPT !.pc = "drain_in"]      \* finish()
-               ELSE IF x.t = "ieos" THEN s2c' = Push(s2c, [t |-> "oeos"]) /\ srv' = [srv EXCEPT !.pc = "idle"]
-               ELSE s2c' = s2c /\ srv' = [srv EXCEPT !.pc = "dead"]
-         /\ UNCHANGED <<cli, calls, badResp, broken>>
+            /\ srv' = [srv EXCEPT !.pc = IF Head(c2s).t = "ie" THEN "idle" ELSE "drain_in"]
+            /\ UNCHANGED <<s2c, cli, script, obs, badResp, broken>>
+Server == SReadRequest \/ SReadStray \/ SSwallow \/ SStray \/ SOpenIn \/ SLoop \/ SDrainIn
 
-SDrainIn == /\ srv.pc = "drain_in" /\ Len(c2s) > 0
-            /\ c2s' = Tail(c2s)
-            /\ srv' = IF Head(c2s).t = "ieos" THEN [srv EXCEPT !.pc = "idle"] ELSE srv
-            /\ UNCHANGED <<s2c, cli, calls, badResp, broken>>
-
-Done == /\ cli.pc = "idle" /\ (calls = MaxCalls \/ broken) /\ UNCHANGED vars
-
-Next == \/ \E m \in Methods : CStart(m)
-        \/ CReadUnary \/ CReadHeader \/ CTick \/ CCloseWrite \/ CReadOut \/ CClosingDone
-        \/ SReadRequest \/ SStray \/ SSkipIn \/ SOpenIn \/ SLoop \/ SDrainIn
-        \/ Done
+Next == Client \/ Server
 Spec == Init /\ [][Next]_vars
 
-OwnResponse == ~badResp
-NotBroken   == ~broken
-\* message boundary: when the client is idle (no open session) and the server is waiting for a request, the wire is empty
-Boundary == (cli.pc = "idle" /\ ~cli.sess /\ srv.pc = "idle" /\ c2s = <<>>) => s2c = <<>>
-====
+\* ========================================================================================== properties (C04)
+ClientDone == cli.pc = "idle" /\ cli.ip = NCalls
+OwnResponse == ~badResp                       \* every item a call consumed was produced for that call
+NotBroken == ~broken                          \* the client never finds garbage where a stream must start
+ServerAlive == srv.pc # "dead"
+ClientWaiting == cli.pc \in {"rd_unary", "rd_hdr", "rd_out", "drain"}
+ServerStuck == \/ srv.pc = "dead" \/ c2s = <<>>
+               \/ (srv.pc = "idle" /\ c2s # <<>> /\ Head(c2s).t \notin {"req", "is"})
+               \/ (srv.pc = "open_in" /\ c2s # <<>> /\ Head(c2s).t # "is")
+NoOrphanWait == ~(ClientWaiting /\ s2c = <<>> /\ ServerStuck)       \* nobody waits for bytes that will never be written
+Boundary == (ClientDone /\ c2s = <<>> /\ srv.pc = "idle") => s2c = <<>>
+ProbeAnswered == ClientDone => (obs[Len(obs)] = <<(IF VerMismatch THEN "err" ELSE "result"), 0>>)
+Terminal == ClientDone /\ ~ENABLED Server
+==========================================================================================
